@@ -8,9 +8,12 @@ mod img_streams;
 mod geom;
 mod sectorops;
 mod cross;
+mod fsck;
+mod fsrun;
+mod fsckrun;
 
 fn main() {
-    std::panic::set_hook(Box::new(|_| {}));
+    if std::env::var("A2V_TRACE").is_err() { std::panic::set_hook(Box::new(|_| {})); }
     let stdin = io::stdin();
     let stdout = io::stdout();
     let mut out = io::BufWriter::new(stdout.lock());
@@ -38,6 +41,7 @@ fn dispatch(toks: &[&str]) -> String {
         "dpbinfo" => { let d = a2kit::bios::dpb::DiskParameterBlock::create(&geom::kind_of(toks[2])); format!("{} {} {} {} {} {}",d.bsh,d.off,d.dsm,d.drm,d.exm,d.spt) },
         "cells" => cross::cells(toks),
         "cross" => cross::cross(toks),
+        "fsh" => fsrun::run(toks),
         _ => format!("unsupported:{}",toks[0])
     }
 }
